@@ -81,7 +81,7 @@ func mutateTokens(p *program, r *kit.Rand) (string, string) {
 	if r.Chance(0.3) {
 		lc = layoutCfg{mode: layCommon, commentP: 0.15}
 	}
-	s, _ := render(q, r, lc)
+	s, _ := render(q, r.Uint64(), lc)
 	return s, name
 }
 
